@@ -975,6 +975,15 @@ func (c *Client) backwards(
 		verifiedHeader = interimHeader
 	}
 
+	// The hash chain that was just verified must end in the header the caller is
+	// about to store: newHeader was fetched in an earlier request, and the primary
+	// may have answered that request differently.
+	if !bytes.Equal(verifiedHeader.Hash(), newHeader.Hash()) {
+		return ErrInvalidHeader{
+			fmt.Errorf("header %X at height %d does not match the header %X verified backwards from the trusted header",
+				newHeader.Hash(), newHeader.Height, verifiedHeader.Hash())}
+	}
+
 	return nil
 }
 
